@@ -6,14 +6,46 @@
 // once with the settled outcome. The same schedules run in a TSan build (raw-futex hand-off, no
 // happens-before from the scheduler) to catch unsynchronised accesses to the shared core.
 #define VR_OWN_VERIF_POINT
+// Scheduling points: (1) every pthread_mutex_lock made by a scheduled thread (interposed below; enabled iff
+// the mutex is free), (2) every std::atomic operation inside async.h (atomic_shim.h), (3) the explicit
+// PISTACHE_VERIF_POINT hooks at the continuation-list accesses and in construct(). (1) and (2) do not depend
+// on where hooks were placed in the source; the explicit lock/state hooks mark the same places and are skipped.
+#include "common/atomic_shim.h"
+#include <functional>
+#include <type_traits>
+#include <typeinfo>
+#include <vector>
+#include <pistache/typeid.h>
+#define atomic verif_atomic
 #include <pistache/async.h>
+#undef atomic
 
 #include "common/explore.h"
 #include "common/runner.h"
 
+#include <dlfcn.h>
+
 using namespace Pistache;
 
-extern "C" void pistache_verif_point(int kind, const void* addr) { vs_point(kind, addr); }
+extern "C" void pistache_verif_point(int kind, const void* addr)
+{
+    if (kind == VS_A_LOCK || kind == VS_A_STATE_LOAD || kind == VS_A_STATE_STORE)
+        return; // covered by the interposed pthread_mutex_lock / the atomic shim
+    vs_point(kind, addr);
+}
+
+extern "C" int __pthread_mutex_lock(pthread_mutex_t*);
+static int (*real_mutex_lock)(pthread_mutex_t*) = nullptr;
+__attribute__((constructor)) static void resolve_mutex_lock()
+{
+    real_mutex_lock = reinterpret_cast<int (*)(pthread_mutex_t*)>(dlsym(RTLD_NEXT, "pthread_mutex_lock"));
+}
+extern "C" int pthread_mutex_lock(pthread_mutex_t* m)
+{
+    if (vs_self() >= 0)
+        vs_point(VS_A_LOCK, m);
+    return real_mutex_lock ? real_mutex_lock(m) : __pthread_mutex_lock(m);
+}
 
 struct Slot
 {
